@@ -383,6 +383,24 @@ func checkCaseWith(t hx.TB, test, x string, pl plan, mk func() *ir.Module) {
 	results := make([][]res, len(pl.Ops))
 	var wg sync.WaitGroup
 	start := make(chan struct{})
+	// more than one module: a module of its own (a fresh copy from the same source, never shared) is printed by
+	// one more goroutine during the concurrent phase; it shares nothing with the module under test, so neither
+	// the race detector nor the texts may notice it
+	var bystander, bystanderOut string
+	if other := mk(); other != nil {
+		if pl.Edit == 0 {
+			bystander, _ = lx.Print(mk())
+		}
+		wg.Add(1)
+		go func() {
+			defer wg.Done()
+			<-start
+			for k := 0; k < 3; k++ {
+				bystanderOut, _ = lx.Print(other)
+			}
+		}()
+		hx.Hist("another_module_printed_during_the_concurrent_phase")
+	}
 	for g := range pl.Ops {
 		wg.Add(1)
 		go func(g int) {
@@ -397,7 +415,10 @@ func checkCaseWith(t hx.TB, test, x string, pl plan, mk func() *ir.Module) {
 	close(start)
 	wg.Wait()
 	if rep := hx.RaceReport(); rep != "" {
-		hx.Fail(t, test, "ll", caseText, "the race detector reports a data race while %d goroutines print the same module (start state: printed once = %v):\n%s", len(pl.Ops), pl.Printed, rep)
+		hx.Fail(t, test, "ll", caseText, "the race detector reports a data race while %d goroutines print the same module (start state: printed once = %v) and one goroutine prints another module:\n%s", len(pl.Ops), pl.Printed, rep)
+	}
+	if bystander != "" && bystanderOut != bystander {
+		hx.Fail(t, test, "ll", caseText, "a module of its own, printed by one goroutine while %d goroutines print the module under test, does not print what it prints alone:\n%s", len(pl.Ops), firstDiff(bystander, bystanderOut))
 	}
 	// The sequential expectations are computed only now, from fresh copies: a process-wide cache that the
 	// printer fills lazily must not have been warmed by a sequential print before the concurrent phase.
